@@ -81,3 +81,28 @@ Proof.
   split; vm_compute; lia.
 Qed.
 Print Assumptions C16_hypotheses_inhabited.
+
+(** Aligned PER: every strict octet prefix of an encoding, and of any input the
+    decoder accepts while consuming its last octet, is a decode error; the
+    prefix behaviour [PBA] is [PB] relative to the octet grid. *)
+From Asn1V Require Import Per.PerImpl Per.PerPrim Per.PerPB Per.PerRT.
+
+Theorem C16_per_truncation :
+  forall numeric fuel e t v data,
+    per_encode numeric fuel e t v = Ok data ->
+    forall k, (k < length data)%nat ->
+      exists x, per_decode numeric fuel e t (firstn k data) = Err x /\ is_decode_error x = true.
+Proof. exact per_truncation. Qed.
+Print Assumptions C16_per_truncation.
+
+Theorem C16_per_decode_truncation :
+  forall numeric fuel e t data v n,
+    per_decode numeric fuel e t data = Ok (v, n) -> (8 * (length data - 1) < n)%nat ->
+    forall k, (k < length data)%nat ->
+      exists x, per_decode numeric fuel e t (firstn k data) = Err x /\ is_decode_error x = true.
+Proof. exact per_decode_truncation. Qed.
+Print Assumptions C16_per_decode_truncation.
+
+Theorem C16_per_prefix_behaviour : forall numeric e fuel t, PBA (pdec_ty numeric e fuel t).
+Proof. exact PB_pdec. Qed.
+Print Assumptions C16_per_prefix_behaviour.
